@@ -263,8 +263,7 @@ Qed.
 (* ------------------------------------------------ float bounds *)
 Lemma fl_rem_spec v n : fl_is_zero v = false -> fl_is_zero (fl_rem v n) = spec_multiple v n.
 Proof.
-  intros Hv. destruct v as [| s | m e]; [reflexivity|reflexivity|].
-  destruct n as [| s' | m' e']; [reflexivity| |].
+  intros Hv. destruct v as [| s | m e], n as [| s' | m' e']; try reflexivity.
   - cbn [fl_rem]. rewrite Hv. reflexivity.
   - rewrite fl_is_zero_fin in Hv. apply Z.eqb_neq in Hv.
     unfold fl_rem, spec_multiple.
@@ -362,3 +361,358 @@ Proof.
   - (* float value, float bound *)
     apply num_exact_float; [reflexivity|]. intros ->. exact (proj1 (Hm eq_refl)).
 Qed.
+
+(* ------------------------------------------------ list utilities *)
+Lemma first_fail_of_bool {A} (g : A -> bool) (f : A -> res) l :
+  (forall x, In x l -> f x = of_bool (g x)) -> first_fail (map f l) = of_bool (forallb g l).
+Proof.
+  induction l as [|x l IH]; intros H; [reflexivity|].
+  cbn [map first_fail forallb]. rewrite (H x (or_introl eq_refl)).
+  destruct (g x); cbn [of_bool andb]; [|reflexivity].
+  apply IH. intros y Hy. apply H. right. exact Hy.
+Qed.
+
+Lemma forallb_true {A} (l : list A) : forallb (fun _ => true) l = true.
+Proof. induction l; [reflexivity|exact IHl]. Qed.
+
+Lemma forallb_andb {A} (f g : A -> bool) l :
+  forallb (fun x => f x && g x) l = forallb f l && forallb g l.
+Proof.
+  induction l as [|x l IH]; [reflexivity|]. cbn [forallb]. rewrite IH.
+  destruct (f x), (g x), (forallb f l), (forallb g l); reflexivity.
+Qed.
+
+Lemma forallb_ext_in {A} (f g : A -> bool) l :
+  (forall x, In x l -> f x = g x) -> forallb f l = forallb g l.
+Proof.
+  induction l as [|x l IH]; intros H; [reflexivity|]. cbn [forallb].
+  rewrite (H x (or_introl eq_refl)), IH; [reflexivity|]. intros y Hy. apply H. right. exact Hy.
+Qed.
+
+Lemma forallb_filter {A} (p g : A -> bool) l :
+  forallb g (filter p l) = forallb (fun x => implb (p x) (g x)) l.
+Proof.
+  induction l as [|x l IH]; [reflexivity|]. cbn [filter forallb].
+  destruct (p x); cbn [forallb implb]; rewrite IH; reflexivity.
+Qed.
+
+Lemma forallb_swap {A B} (h : A -> B -> bool) (la : list A) (lb : list B) :
+  forallb (fun a => forallb (fun b => h a b) lb) la = forallb (fun b => forallb (fun a => h a b) la) lb.
+Proof.
+  induction la as [|a la IH].
+  - cbn [forallb]. symmetry. apply forallb_true.
+  - cbn [forallb]. rewrite IH. symmetry. apply forallb_andb.
+Qed.
+
+Lemma first_nz_zero l : first_nz l = 0%N -> forall c, In c l -> c = 0%N.
+Proof.
+  induction l as [|x l IH]; intros H c Hc; [destruct Hc|].
+  cbn [first_nz] in H. destruct x; [|discriminate].
+  destruct Hc as [<-|Hc]; [reflexivity|]. apply IH; assumption.
+Qed.
+
+Lemma forallb_pick (g : vkind -> bool) cfg order :
+  forallb g (pick cfg order) = forallb (fun k => implb (existsb (N.eqb (tag_of k)) order) (g k)) cfg.
+Proof.
+  unfold pick. induction order as [|t o IH].
+  - cbn [flat_map forallb existsb implb]. symmetry. apply forallb_true.
+  - cbn [flat_map existsb]. rewrite forallb_app, IH, forallb_filter, <- forallb_andb.
+    apply forallb_ext_in. intros k _.
+    destruct (N.eqb (tag_of k) t), (existsb (N.eqb (tag_of k)) o), (g k); reflexivity.
+Qed.
+
+Lemma In_pick k cfg order : In k (pick cfg order) -> In k cfg /\ existsb (N.eqb (tag_of k)) order = true.
+Proof.
+  unfold pick. intros H. apply in_flat_map in H. destruct H as (t & Ht & Hk).
+  apply filter_In in Hk. destruct Hk as [Hk E]. split; [exact Hk|].
+  apply existsb_exists. exists t. split; assumption.
+Qed.
+
+(* the order tables of create_validators cover every validator exactly in its group *)
+Lemma list_order_tags k : existsb (N.eqb (tag_of k)) list_order_gen = is_list_kind k.
+Proof. destruct k as [[] b|[] n|r|[] n]; reflexivity. Qed.
+Lemma elem_order_tags k : existsb (N.eqb (tag_of k)) elem_order_gen = negb (is_list_kind k).
+Proof. destruct k as [[] b|[] n|r|[] n]; reflexivity. Qed.
+
+(* ------------------------------------------------ one validator on one raw value *)
+Section Slots.
+  Variable matches : N -> str -> bool.
+  Variable strict : bool.
+
+  Lemma len_exact op n s : run_len op n s = of_bool (spec_len op n s).
+  Proof.
+    destruct op; unfold run_len, spec_len, measure_of;
+      unfold max_length_cmp_gen, min_length_cmp_gen, chars_max_length_cmp_gen, chars_min_length_cmp_gen,
+             max_length_measure_gen, min_length_measure_gen, chars_max_length_measure_gen, chars_min_length_measure_gen;
+      rewrite ?cmp_z_le, ?cmp_z_ge; reflexivity.
+  Qed.
+
+  Lemma kind_exact k a :
+    wt_kind k a = true -> pair_class2 strict k a = 0%N ->
+    run_kind matches k a = of_bool (spec_kind matches k a).
+  Proof.
+    intros W C. destruct k as [op b|op n|r|mx n]; destruct a as [|x|s|l]; try discriminate W; cbn [run_kind spec_kind].
+    - apply (num_exact strict). exact C.
+    - apply len_exact.
+    - reflexivity.
+    - unfold run_items. destruct mx; unfold max_items_cmp_gen, min_items_cmp_gen; rewrite ?cmp_z_le, ?cmp_z_ge; reflexivity.
+  Qed.
+
+  Lemma class_nonnum k a :
+    match k with KNum _ _ => False | _ => True end -> pair_class2 strict k a = 0%N.
+  Proof. destruct k; intros H; try contradiction; reflexivity. Qed.
+  Lemma class_none k : pair_class2 strict k ANone = 0%N.
+  Proof. destruct k as [[] b| | |]; reflexivity. Qed.
+
+  Definition ok (k : vkind) (a : arg) : Prop := wt_nonnull k a = true /\ pair_class2 strict k a = 0%N.
+
+  Lemma on_raw_exact ks a :
+    (forall k, In k ks -> ok k a) ->
+    on_raw a (run_kinds matches ks) = of_bool (forallb (fun k => holds_nonnull matches k a) ks).
+  Proof.
+    intros H. destruct a as [|x|s|l]; cbn [on_raw holds_nonnull].
+    - rewrite forallb_true. reflexivity.
+    - unfold run_kinds. apply first_fail_of_bool. intros k Hk. destruct (H k Hk). apply kind_exact; assumption.
+    - unfold run_kinds. apply first_fail_of_bool. intros k Hk. destruct (H k Hk). apply kind_exact; assumption.
+    - unfold run_kinds. apply first_fail_of_bool. intros k Hk. destruct (H k Hk). apply kind_exact; assumption.
+  Qed.
+
+  Lemma match_nil_on_raw ks a :
+    match ks with [] => Accept | _ => on_raw a (run_kinds matches ks) end = on_raw a (run_kinds matches ks).
+  Proof. destruct ks; [destruct a; reflexivity|reflexivity]. Qed.
+
+  (* ---------------------------------------------- one argument / input field *)
+  Theorem slot_exact s :
+    wt_slot s = true -> slot_class strict s = 0%N ->
+    run_slot matches s = of_bool (spec_slot matches s).
+  Proof.
+    destruct s as [[cfg lm] a]. intros W C.
+    unfold wt_slot in W. rewrite forallb_forall in W.
+    unfold slot_class in C. pose proof (first_nz_zero _ C) as C'. clear C.
+    assert (CE : forall k it, In k cfg -> is_list_kind k = false -> In it (items_of lm a) -> pair_class2 strict k it = 0%N).
+    { intros k it Hk Hl Hit. apply C'. apply in_flat_map. exists k. split; [exact Hk|].
+      rewrite Hl. apply in_map. exact Hit. }
+    clear C'.
+    (* the specification, split by group *)
+    assert (S : spec_slot matches (cfg, lm, a) =
+                forallb (fun k => holds_nonnull matches k a) (pick cfg list_order_gen) &&
+                forallb (fun k => if lm then match a with
+                                             | ANone => true
+                                             | AList l => forallb (holds_nonnull matches k) l
+                                             | _ => false
+                                             end
+                                  else holds_nonnull matches k a) (pick cfg elem_order_gen)).
+    { rewrite !forallb_pick, <- forallb_andb. unfold spec_slot. apply forallb_ext_in. intros k _.
+      rewrite list_order_tags, elem_order_tags. destruct (is_list_kind k); cbn [implb negb].
+      - rewrite andb_true_r. reflexivity.
+      - reflexivity. }
+    rewrite S. clear S.
+    unfold run_slot. rewrite match_nil_on_raw.
+    (* list-level validators *)
+    assert (RL : on_raw a (run_kinds matches (pick cfg list_order_gen)) =
+                 of_bool (forallb (fun k => holds_nonnull matches k a) (pick cfg list_order_gen))).
+    { apply on_raw_exact. intros k Hk. apply In_pick in Hk. destruct Hk as [Hk Ht].
+      rewrite list_order_tags in Ht. split.
+      - specialize (W k Hk). rewrite Ht in W. exact W.
+      - destruct k; try discriminate Ht. apply class_nonnum. exact I. }
+    rewrite RL. clear RL.
+    set (A := forallb (fun k => holds_nonnull matches k a) (pick cfg list_order_gen)).
+    (* element-level validators *)
+    assert (HE : forall k, In k (pick cfg elem_order_gen) -> In k cfg /\ is_list_kind k = false).
+    { intros k Hk. apply In_pick in Hk. destruct Hk as [Hk Ht]. rewrite elem_order_tags in Ht.
+      split; [exact Hk|]. destruct (is_list_kind k); [discriminate|reflexivity]. }
+    assert (RE : match pick cfg elem_order_gen with
+                 | [] => Accept
+                 | _ => if lm
+                        then match a with
+                             | ANone => Accept
+                             | AList l => first_fail (map (fun it => on_raw it (run_kinds matches (pick cfg elem_order_gen))) l)
+                             | _ => IllTyped
+                             end
+                        else on_raw a (run_kinds matches (pick cfg elem_order_gen))
+                 end =
+                 of_bool (forallb (fun k => if lm then match a with
+                                                       | ANone => true
+                                                       | AList l => forallb (holds_nonnull matches k) l
+                                                       | _ => false
+                                                       end
+                                            else holds_nonnull matches k a) (pick cfg elem_order_gen))).
+    { destruct lm.
+      - destruct a as [|x|s|l].
+        + rewrite forallb_true. destruct (pick cfg elem_order_gen); reflexivity.
+        + destruct (pick cfg elem_order_gen) as [|k ks] eqn:P; [reflexivity|].
+          exfalso. destruct (HE k (or_introl eq_refl)) as [Hk Hl]. specialize (W k Hk). rewrite Hl in W. discriminate.
+        + destruct (pick cfg elem_order_gen) as [|k ks] eqn:P; [reflexivity|].
+          exfalso. destruct (HE k (or_introl eq_refl)) as [Hk Hl]. specialize (W k Hk). rewrite Hl in W. discriminate.
+        + assert (R : first_fail (map (fun it => on_raw it (run_kinds matches (pick cfg elem_order_gen))) l) =
+                      of_bool (forallb (fun it => forallb (fun k => holds_nonnull matches k it) (pick cfg elem_order_gen)) l)).
+          { apply first_fail_of_bool. intros it Hit. apply on_raw_exact. intros k Hk.
+            destruct (HE k Hk) as [Hkc Hl]. split.
+            - specialize (W k Hkc). rewrite Hl in W. rewrite forallb_forall in W. apply W. exact Hit.
+            - apply CE; [exact Hkc|exact Hl|exact Hit]. }
+          rewrite (forallb_swap (fun it k => holds_nonnull matches k it)) in R.
+          rewrite R. destruct (pick cfg elem_order_gen); reflexivity.
+      - rewrite match_nil_on_raw. apply on_raw_exact. intros k Hk.
+        destruct (HE k Hk) as [Hkc Hl]. split.
+        + specialize (W k Hkc). rewrite Hl in W. exact W.
+        + apply CE; [exact Hkc|exact Hl|left; reflexivity]. }
+    rewrite RE. clear RE.
+    destruct A; cbn [of_bool first_fail andb]; [|reflexivity].
+    match goal with |- match of_bool ?b with _ => _ end = _ => destruct b end; reflexivity.
+  Qed.
+
+  (* ---------------------------------------------- a whole field (all its validated arguments) *)
+  Lemma exec_exact ss :
+    forallb wt_slot ss = true -> first_nz (map (slot_class strict) ss) = 0%N ->
+    run_exec matches ss = of_bool (spec_req matches ss).
+  Proof.
+    intros W C. unfold run_exec, spec_req. apply first_fail_of_bool. intros s Hs.
+    apply slot_exact.
+    - rewrite forallb_forall in W. apply W. exact Hs.
+    - apply (first_nz_zero _ C). apply in_map. exact Hs.
+  Qed.
+
+  Theorem req_exact ss :
+    forallb wt_slot ss = true -> req_class strict ss = 0%N ->
+    run_req matches strict ss = of_bool (spec_req matches ss).
+  Proof.
+    intros W C. unfold req_class in C.
+    destruct (first_nz (map (slot_class strict) ss)) eqn:F; [|discriminate].
+    unfold run_req. destruct (strict && req_big ss); [discriminate|].
+    apply exec_exact; assumption.
+  Qed.
+
+  Lemma sat_of_bool b : sat (of_bool b) b = true.
+  Proof. destruct b; reflexivity. Qed.
+End Slots.
+
+(* ------------------------------------------------ the verdict of the correspondence files *)
+Theorem check_sound tbl strict ss code :
+  forallb wt_slot ss = true -> req_class strict ss = 0%N ->
+  check_case (tbl, strict, ss, code) <> 2%N /\
+  (res_of_code code = run_req (lookup tbl) strict ss -> check_case (tbl, strict, ss, code) = 0%N).
+Proof.
+  intros W C. unfold check_case.
+  rewrite (req_exact (lookup tbl) strict ss W C), sat_of_bool. unfold verdict.
+  split.
+  - destruct (res_eqb (res_of_code code) (of_bool (spec_req (lookup tbl) ss))); [discriminate|].
+    destruct (sat (res_of_code code) (spec_req (lookup tbl) ss)); [discriminate|].
+    rewrite C. discriminate.
+  - intros ->. destruct (of_bool (spec_req (lookup tbl) ss)); reflexivity.
+Qed.
+
+(* ------------------------------------------------ list mode, stated pointwise *)
+Lemma holds_nonnull_iff m k it : holds_nonnull m k it = true <-> it = ANone \/ spec_kind m k it = true.
+Proof.
+  destruct it; cbn [holds_nonnull]; split; intros H; try (left; reflexivity); try (right; exact H);
+    try reflexivity; destruct H as [H|H]; try discriminate H; try exact H.
+Qed.
+
+Theorem list_mode_iff m strict cfg l :
+  wt_slot (cfg, true, AList l) = true -> slot_class strict (cfg, true, AList l) = 0%N ->
+  (forall k, In k cfg -> is_list_kind k = false) ->
+  (run_slot m (cfg, true, AList l) = Accept <->
+   forall k it, In k cfg -> In it l -> it = ANone \/ spec_kind m k it = true).
+Proof.
+  intros W C HL. rewrite (slot_exact m strict _ W C), of_bool_accept.
+  unfold spec_slot. rewrite forallb_forall. split.
+  - intros H k it Hk Hit. specialize (H k Hk). rewrite (HL k Hk) in H.
+    rewrite forallb_forall in H. apply holds_nonnull_iff. apply H. exact Hit.
+  - intros H k Hk. rewrite (HL k Hk). rewrite forallb_forall. intros it Hit.
+    apply holds_nonnull_iff. apply H; assumption.
+Qed.
+
+(* ------------------------------------------------ strings *)
+Lemma utf8_len_bounds c : 1 <= utf8_len c <= 4.
+Proof. unfold utf8_len. destruct (c <? 128)%N, (c <? 2048)%N, (c <? 65536)%N; lia. Qed.
+
+Lemma byte_len_cons c s : byte_len (c :: s) = utf8_len c + byte_len s.
+Proof. reflexivity. Qed.
+
+Lemma byte_len_app s t : byte_len (s ++ t) = byte_len s + byte_len t.
+Proof.
+  induction s as [|c s IH]; [reflexivity|].
+  rewrite <- app_comm_cons, !byte_len_cons, IH. lia.
+Qed.
+
+Lemma byte_char_len s : char_len s <= byte_len s <= 4 * char_len s.
+Proof.
+  unfold char_len. induction s as [|c s IH]; [cbn; lia|].
+  rewrite byte_len_cons. cbn [length]. rewrite Nat2Z.inj_succ. pose proof (utf8_len_bounds c). lia.
+Qed.
+
+Lemma byte_len_ascii s : Forall (fun c => (c < 128)%N) s -> byte_len s = char_len s.
+Proof.
+  unfold char_len. induction 1 as [|c s Hc _ IH]; [reflexivity|].
+  rewrite byte_len_cons, IH. cbn [length]. rewrite Nat2Z.inj_succ. unfold utf8_len.
+  destruct (N.ltb_spec c 128); lia.
+Qed.
+
+Lemma len_iff op n s :
+  run_len op n s = Accept <->
+  match op with
+  | LMaxLength => byte_len s <= n
+  | LMinLength => n <= byte_len s
+  | LCharsMax => Z.of_nat (length s) <= n
+  | LCharsMin => n <= Z.of_nat (length s)
+  end.
+Proof. rewrite len_exact, of_bool_accept. destruct op; cbn [spec_len]; unfold char_len; apply Z.leb_le. Qed.
+
+Lemma items_iff mx n l :
+  run_items mx n l = Accept <-> if mx then Z.of_nat (length l) <= n else n <= Z.of_nat (length l).
+Proof.
+  unfold run_items. rewrite of_bool_accept.
+  destruct mx; unfold max_items_cmp_gen, min_items_cmp_gen; rewrite ?cmp_z_le, ?cmp_z_ge; apply Z.leb_le.
+Qed.
+
+(* ------------------------------------------------ witnesses *)
+Definition no_match : N -> str -> bool := fun _ _ => false.
+
+Lemma u64_wrap_refuted :
+  exists x n, 0 <= x < 2 ^ 64 /\ 0 <= n /\
+    run_num OMax (BI n) (NI x) = Accept /\ spec_num OMax (BI n) (NI x) = false /\
+    run_req no_match false [([KNum OMax (BI n)], false, ANum (NI x))] = Accept /\
+    spec_req no_match [([KNum OMax (BI n)], false, ANum (NI x))] = false /\
+    run_req no_match true [([KNum OMin (BI n)], false, ANum (NI x))] = Reject /\
+    spec_req no_match [([KNum OMin (BI n)], false, ANum (NI x))] = true.
+Proof. exists (2 ^ 64 - 1), 10. vm_compute. repeat split; intros; discriminate. Qed.
+
+(* 10.5 <= 10 accepted; -0.5 >= 0 accepted; 6.5 a multiple of 3 *)
+Lemma float_value_int_bound_refuted :
+  run_num OMax (BI 10) (NF 4622100592565682176) = Accept /\ spec_num OMax (BI 10) (NF 4622100592565682176) = false /\
+  run_num OMin (BI 0) (NF 13826050856027422720) = Accept /\ spec_num OMin (BI 0) (NF 13826050856027422720) = false /\
+  run_num OMul (BI 3) (NF 4619004367821864960) = Accept /\ spec_num OMul (BI 3) (NF 4619004367821864960) = false.
+Proof. vm_compute. repeat split. Qed.
+
+(* 2^53 + 1 <= 2^53 accepted; 2^53 + 1 = 3 * 3002399751580331 refused by multiple_of = 3.0 *)
+Lemma int_value_float_bound_refuted :
+  run_num OMax (BF 4845873199050653696) (NI (2 ^ 53 + 1)) = Accept /\
+  spec_num OMax (BF 4845873199050653696) (NI (2 ^ 53 + 1)) = false /\
+  run_num OMul (BF 4613937818241073152) (NI (2 ^ 53 + 1)) = Reject /\
+  spec_num OMul (BF 4613937818241073152) (NI (2 ^ 53 + 1)) = true.
+Proof. vm_compute. repeat split. Qed.
+
+Lemma multiple_of_zero_refuted n :
+  run_num OMul (BI n) (NI 0) = Reject /\ spec_num OMul (BI n) (NI 0) = true.
+Proof. split; [apply multiple_of_zero_rejected|apply multiple_of_zero_spec]. Qed.
+
+Lemma multiple_of_panic_refuted :
+  run_req no_match false [([KNum OMul (BI 0)], false, ANum (NI 5))] = Panicked /\
+  run_num OMul (BI (-1)) (NI I64_MIN) = Panicked.
+Proof. vm_compute. split; reflexivity. Qed.
+
+(* max_length counts UTF-8 bytes, chars_max_length scalar values: "你好" *)
+Lemma length_measures_differ :
+  run_len LMaxLength 5 [20320; 22909]%N = Reject /\ run_len LCharsMax 5 [20320; 22909]%N = Accept.
+Proof. vm_compute. split; reflexivity. Qed.
+
+(* non-vacuity: a request with numeric, string and list validators in class 0 *)
+Definition demo_req : list slot :=
+  [ ([KNum OMin (BI 1); KNum OMax (BI 100); KNum OMul (BI 5)], false, ANum (NI 35));
+    ([KLen LMinLength 2; KLen LCharsMax 4; KRegex 0], false, AStr [97; 20320]%N);
+    ([KItems true 3; KNum OMax (BF 4622100592565682176)], true, AList [ANum (NI 10); ANone; ANum (NF 4602678819172646912)]) ].
+Lemma demo_req_ok :
+  forallb wt_slot demo_req = true /\ req_class true demo_req = 0%N /\
+  run_req (fun _ _ => true) true demo_req = Accept /\ spec_req (fun _ _ => true) demo_req = true /\
+  run_req no_match true demo_req = Reject.
+Proof. vm_compute. repeat split. Qed.
